@@ -143,6 +143,58 @@ let () = run_lines (fun toks ->
       out := sz x :: !out; r := x; i := i'
     done;
     fin (sz bits ^ " " ^ join (List.rev !out)) bad used (List.length tr)
+  | "riiseq" :: u :: e :: ss :: rest ->
+    let (ops, tr) = split_bar [] rest in
+    let (orc, bad, used) = mk_orc tr in
+    let u = (u = "1") and e = (e = "1") in
+    let sso s = if s = "-" then None else Some (zs s) in
+    let (st0, i0) = Model.rii_init orc u e (sso ss) Model.O in
+    let st = ref st0 and i = ref i0 in
+    let show (s : Model.rii_state) = sz s.Model.rii_b ^ ":" ^ sz s.Model.rii_v in
+    let out = ref [show st0] in
+    List.iter (fun op ->
+      let mop = (match op.[0] with
+        | 'b' -> Some (Model.RSetBits (zs (String.sub op 1 (String.length op - 1))))
+        | '+' -> Some Model.RIncr
+        | '*' | 'd' -> Some Model.RDeref
+        | 'r' | 'c' -> Some (Model.RDraw (zs "-77"))
+        | 'v' | 'R' -> Some (Model.RDraw z0)
+        | 'C' -> None
+        | 'A' -> Some (Model.ROther (sso (String.sub op 1 (String.length op - 1))))
+        | _ -> failwith "riiseq op") in
+      match mop with
+      | None -> out := show !st :: !out
+      | Some m ->
+        let ((st1, o), i1) = Model.rii_step orc u e !st m !i in
+        st := st1; i := i1;
+        out := (show st1 ^ (match o with Some y -> ":" ^ sz y | None -> "")) :: !out) ops;
+    fin (join (List.rev !out)) bad used (List.length tr)
+  | "ringseq" :: kind :: p :: seed :: size :: bits :: ops :: _ ->
+    let p = zs p and size = zs size and bits = zs bits in
+    let s = ref (Model.giv_ctor_nz (zs seed)) and out = ref [] and dead = ref false in
+    let plain st : Model.z * Model.z = (match kind with
+      | "mod" | "bal" -> Model.ring_random (init_of kind p) st
+      | "id" -> Model.general_randiter (fun x -> x) size st
+      | "gfq" -> Model.gfq_random bits p (Model.giv_randiter_size size p) st
+      | "gf2" -> Model.gf2_random st
+      | _ -> failwith "kind") in
+    String.iter (fun c ->
+      if not !dead then match c with
+        | 'r' | 'c' | 'v' | 'R' -> let (a, s') = plain !s in out := sz a :: !out; s := s'
+        | 'n' | 'm' -> (match Model.general_nonzero fuel_nz plain !s with
+            | None -> dead := true
+            | Some (a, s') -> out := sz a :: !out; s := s')
+        | _ -> ()) ops;
+    if !dead then "NONE" else join (List.rev !out)
+  | "qf" :: nz :: by_int :: bn :: bd :: rest ->
+    let (_, tr) = split_bar [] rest in
+    let one den_first =
+      let (orc, bad, used) = mk_orc tr in
+      let r = (match Model.qfield_random orc (nat (List.length tr + 2)) (nz = "1") (by_int = "1") den_first (zs bn) (zs bd) Model.O with
+        | None -> "NONE"
+        | Some ((n, d), _) -> sz n ^ " " ^ sz d) in
+      fin r bad used (List.length tr) in
+    one false ^ " || " ^ one true
   | "mii" :: size :: p :: cnt :: rest ->
     let (_, tr) = split_bar [] rest in
     let (orc, bad, used) = mk_orc tr in
